@@ -51,7 +51,11 @@ func (fr *frame) call(c *ssa.CallCommon, ins ssa.Instruction, desc string) Val {
 	if v, ok := ins.(ssa.Value); ok {
 		resT = v.Type()
 	} else {
-		resT = c.Signature().Results()
+		rs := c.Signature().Results()
+		resT = rs
+		if rs.Len() == 1 {
+			resT = rs.At(0).Type()
+		}
 	}
 	pos := fr.pos(ins.Pos())
 	if b, ok := c.Value.(*ssa.Builtin); ok {
@@ -369,7 +373,31 @@ func (fr *frame) applyContract(con *Contract, callee *ssa.Function, sig *types.S
 	for _, cl := range con.clauses("ensures") {
 		vc.assume(implies(fr.guard, post.evalBool(cl.Expr)))
 	}
+	fr.crashInvariant("after " + cname, pos)
 	return res
+}
+
+// crashInvariant: the root contract's crash_invariant clauses must hold in the
+// state after every state-changing external call.
+func (fr *frame) crashInvariant(where, pos string) {
+	vc := fr.vc
+	root := vc.rootFrame
+	if root == nil || root.con == nil {
+		return
+	}
+	cls := root.con.clauses("crash_invariant")
+	if len(cls) == 0 {
+		return
+	}
+	saveMem := root.mem
+	root.mem = fr.mem
+	env := root.baseEnv()
+	root.mem = saveMem
+	env.mem, env.old = fr.mem, root.entry
+	for _, cl := range cls {
+		key := clauseLabel(cl) + " " + where
+		vc.oblige("crash-inv", fmt.Sprintf("%s/crash-inv[%s %s#%d]", vc.Name, clauseLabel(cl), where, fr.occ("crash:"+key)), fr.guard, env.evalBool(cl.Expr), pos)
+	}
 }
 
 func (fr *frame) panicExitFromCallee(cond, site string, con *Contract, post *SpecEnv) {
